@@ -7,6 +7,7 @@ For all 8 kinds, both auth types, secret present/absent, and ALL byte strings as
 -/
 namespace C02
 open Form Req
+set_option linter.unusedSimpArgs false
 
 theorem dropPrefix_append (p x : Bytes) : dropPrefix p (p ++ x) = some x := by
   simp [dropPrefix]
@@ -57,6 +58,27 @@ theorem C02_not_in_url (c : Cfg) (id' : Bytes) (sec' : Option Bytes) :
     (build { c with clientId := id', secret := sec' }).uri = (build c).uri := by
   simp [build]
 
+theorem formSafe_b64_neutral : ∀ c : UInt8, (isFormSafe c = true ∨ c = 0x3A) → c.toNat < 128 ∧ c.toNat % 64 < 62 := by
+  apply UInt8.forall_fin; decide +kernel
+
+/-- Harmless rewrite, proved: on the form-urlencoded Basic payload no 6-bit group is 62 or 63, so the
+URL-safe and the standard base64 alphabets give the SAME header text (swapping `BASE64_STANDARD` for a
+padded URL-safe engine changes nothing). The correspondence therefore compares decoded credentials. -/
+theorem C02_engine_irrelevant (id secret : Bytes) :
+    B64.encodePadN .standard (B64.toN (basicPayload id secret)) = B64.encodePadN .urlSafe (B64.toN (basicPayload id secret)) := by
+  have h : B64.encodeN .standard (B64.toN (basicPayload id secret)) = B64.encodeN .urlSafe (B64.toN (basicPayload id secret)) := by
+    apply B64.encodeN_alphabet_irrelevant
+    intro b hb
+    simp only [B64.toN, List.mem_map] at hb
+    obtain ⟨c, hc, rfl⟩ := hb
+    apply formSafe_b64_neutral
+    simp only [basicPayload, List.mem_append, List.mem_cons] at hc
+    rcases hc with h | h | h
+    · exact Or.inl (byteSerialize_formSafe _ c h)
+    · exact Or.inr h
+    · exact Or.inl (byteSerialize_formSafe _ c h)
+  simp [B64.encodePadN, h]
+
 /-! Non-vacuity -/
 example : recoverBasic (basicHeader (s "a:b c") (s "p:%+=")) = some (s "a:b c", s "p:%+=") :=
   recoverBasic_basicHeader _ _
@@ -68,3 +90,4 @@ end C02
 #print axioms C02.C02_body
 #print axioms C02.C02_header_safe
 #print axioms C02.C02_not_in_url
+#print axioms C02.C02_engine_irrelevant
